@@ -748,6 +748,13 @@ gen_c04_scaled_fit (gen_t *g, rng_t *r, scenario_t *sc)
 	int64_t rp[5] = { 0, 0, 0, 2, rng_n (r, 4) };
 	int w = SW * num / den + (int)rng_range (r, -1, 1), h = (sy == 65536 ? SH : SH * num / den) + (int)rng_range (r, -1, 0);
 	int64_t c[16] = { 0, 0, 0, ops[rng_n (r, 8)], 2, rng_chance (r, 1, 3) ? 3 : -1, 0, 0, 0, 0, 0, rng_n (r, 3), rng_n (r, 2), w < 1 ? 1 : w, h < 1 ? 1 : h };
+	if (rng_chance (r, 2, 5))
+	{
+	    /* NEAREST takes floor (x - 1/65536): the translation that puts sample positions
+	     * exactly on pixel boundaries, so that one of them lands exactly on the wrap point */
+	    a[7] = ((sx / 2) & 0xffff) == 0 ? 1 : ((sx / 2) & 0xffff) == 32768 ? 32769 : 1 + 65536 - ((sx / 2) & 0xffff);
+	    if (rng_chance (r, 1, 2)) f[4] = PIXMAN_FILTER_NEAREST;
+	}
 	if (rng_chance (r, 1, 3)) { a[7] += (int64_t)rng_range (r, 0, SW) * 65536; }
 	sc_addv (sc, MOP_SET_TRANSFORM, 14, a);
 	sc_addv (sc, MOP_SET_FILTER, 9, f);
